@@ -118,3 +118,74 @@ class TTGlyphPenSimpleGlyph(_IntModel, Contract):
         return And(not hasattr(g, "components"), *cs)
 
     ensures = [prop("glyph-has-the-pen-points-with-implicit-closing", lambda a, old, r: TTGlyphPenSimpleGlyph._post(a, r))]
+
+
+@contract
+class TTGlyphPenBuildComponents(_IntModel, Contract):
+    """TTGlyphPen._buildComponents for one component with EVERY real x-scale and offset (the other
+    transform terms 0, 0 and a symbolic y-scale): with handleOverflowingTransforms, a scale
+    beyond +-2 decomposes the component instead of writing it; otherwise the component is
+    written with the base glyph's name, the flags asked for, the offset rounded to integers
+    and transform terms that are multiples of 1/16384 inside F2Dot14's range [-2, 2 - 1/16384]
+    (so compiling cannot wrap them), within 1/32768 of what was asked - or 1/16384 for the
+    values just below 2 that are clamped - and no transform at all exactly when it quantises to
+    the identity; a missing base glyph is skipped; a pen that also holds points decomposes."""
+    module = "fontTools.pens.ttGlyphPen"
+    qualname = "_TTGlyphBasePen._buildComponents"
+    props = ("C14",)
+    shadow_mode = "real"
+    variants = ("plain", "missing-base", "with-points", "no-overflow-handling")
+    level = "P"
+    assumptions = ("A-REAL", "_decompose is a recorder here (own bounded check: nested component decomposition)")
+
+    def args(self, S, variant):
+        import fontTools.pens.ttGlyphPen as mod
+        sx, sy, dx, dy = S.real("sx"), S.real("sy"), S.real("dx"), S.real("dy")
+        calls = []
+
+        class _Pen(mod.TTGlyphPen):
+            def _decompose(self, glyphName, transformation):
+                calls.append((glyphName, transformation))
+        pen = _Pen({} if variant == "missing-base" else {"base": object()}, handleOverflowingTransforms=variant != "no-overflow-handling")
+        pen.addComponent("base", (sx, 0, 0, sy, dx, dy))
+        if variant == "with-points":
+            pen.points = [(0, 0)]
+        return dict(self=pen, componentFlags=0x1204, _sx=sx, _sy=sy, _dx=dx, _dy=dy, _calls=calls, _v=variant)
+
+    def requires(self, a):
+        return And(a._sx >= -4, a._sx <= 4, a._sy >= -4, a._sy <= 4)
+
+    @staticmethod
+    def _post(a, r):
+        v = a._v
+        if v == "missing-base":
+            return r == [] and not a._calls
+        over = Or(a._sx > 2, a._sx < -2, a._sy > 2, a._sy < -2)
+        decomposed = len(a._calls) == 1 and r == [] and a._calls[0][0] == "base"
+        if v == "with-points":
+            return decomposed
+        if not r:
+            return And(over, decomposed, v == "plain")
+        if len(r) != 1 or a._calls:
+            return False
+        c = r[0]
+        cs = [Not(over) if v == "plain" else True, c.glyphName == "base", c.flags == 0x1204,
+              eq(c.x, floor(a._dx + 0.5)), eq(c.y, floor(a._dy + 0.5))]
+        if v != "plain":
+            return And(*cs)
+        from fractions import Fraction
+        MAXF = Fraction(32767, 16384)
+        qx_id = And(a._sx * 16384 + Fraction(1, 2) >= 16384, a._sx * 16384 + Fraction(1, 2) < 16385)
+        qy_id = And(a._sy * 16384 + Fraction(1, 2) >= 16384, a._sy * 16384 + Fraction(1, 2) < 16385)
+        if not hasattr(c, "transform"):
+            return And(qx_id, qy_id, *cs)
+        (xx, xy), (yx, yy) = c.transform
+        cs.append(Not(And(qx_id, qy_id)))
+        for got, want in ((xx, a._sx), (yy, a._sy)):
+            k = got * 16384
+            cs += [eq(k, floor(k)), got >= -2, got <= MAXF,
+                   Ite(want * 16384 + Fraction(1, 2) >= 32768, And(eq(got, MAXF)), And(got - want <= Fraction(1, 32768), want - got <= Fraction(1, 32768)))]
+        cs += [eq(xy, 0), eq(yx, 0)]
+        return And(*cs)
+
+    ensures = [prop("component-representable-or-decomposed", lambda a, old, r: TTGlyphPenBuildComponents._post(a, r))]
